@@ -21,6 +21,11 @@ CHECKS = {
         text="metrics_once/latest/order/calls for every update sequence, placement and multi-item theorems for every path; builders compared on generated histories through a recording table stand-in, and the real PrettyTable output is parsed back into header/rows.",
         note="Trusted: Lean kernel; hand model tied by correspondence; PrettyTable layout (validated by parse-back on sampled tables only); add_model_plot is outside the model (sklearn HTML repr).",
         design="6/C14"),
+    "C15": dict(
+        technique="Lean 4 proof (converter state restored by mutual induction over the pandoc tree => order independence; stack algorithm = 'nearest preceding lower-level header' for all header lists; per-step refinement of the parser) + differential correspondence on generated pandoc JSON",
+        text="conv_state_restored/conv_order_independent hold for every pandoc tree and every starting state; outline_spec for every header list; header_step/content_step describe each parser step as an edit of the abstract path map. The model converter and parser are run against skops.card._markup/_parser on generated pandoc JSON (no pandoc binary needed) and the property's sentences are evaluated on the implementation.",
+        note="Trusted: Lean kernel; hand model tied by correspondence; driver JSON decoding glue; pandoc Figure excluded; whole-document content theorem is stated per step (content_step), not as one closed formula. Known finding: duplicate sibling headings lose the earlier body.",
+        design="6/C15"),
 }
 
 PENDING_REASON = "not claimed yet: the model/check for this property is still being built in this round (see DESIGN.md section 11); it is not 'not applicable' in principle"
